@@ -352,6 +352,15 @@ class BaseEngine(abc.ABC):
         # meaning that we still only need to execute it once
         tdm_options = {"modes": None, "shots": 1 if shots else None, "received_rolled": False}
 
+        # The crop value only depends on the rolled circuit. Work it out before the program is
+        # (space-)unrolled: it raises for programs that cannot be cropped, and the user's
+        # program must then be left exactly as it arrived.
+        crop_value = None
+        if kwargs.get("crop", False) and (
+            kwargs.get("space_unroll", False) or program.space_unrolled_circuit is not None
+        ):
+            crop_value = program.get_crop_value()
+
         # if a tdm program is input in a rolled state, then unroll it; `received_rolled` records
         # that the engine (space-)unrolled the program itself and has to roll it back afterwards
         if kwargs.get("space_unroll", False):
@@ -366,7 +375,7 @@ class BaseEngine(abc.ABC):
 
         if program.space_unrolled_circuit is not None:
             if kwargs.get("crop", False):
-                tdm_options["modes"] = range(program.get_crop_value(), program.timebins)
+                tdm_options["modes"] = range(crop_value, program.timebins)
             else:
                 tdm_options["modes"] = range(0, program.timebins)
         elif kwargs.get("crop", False):
